@@ -581,7 +581,7 @@ def analyse_list_comparator(f, elem_kind):
     fnode_, _inl = normalize.inline_helpers(f, depth=2, skip=('_version_cmp_string', '_version_cmp_part', '_order'))
     params = f.params()
     va, vb = params[1], params[2]
-    if not any(isinstance(st, (ast.While, ast.For)) for st in fnode_.body):
+    if not any(isinstance(st, ast.While) for st in fnode_.body):
         # no position loop: the comparison of two lists padded to the same length abbreviates one
         alt = normalize.padded_list_compare_to_loop(fnode_, va, vb)
         if alt is not None:
